@@ -24,8 +24,10 @@ MODES = {"R": 16, "W": 32, "RW": 48}
 
 
 def mc_rw(mode, pre, ch=1, maxframes=3, maxwrites=2, tag="q", timeout=1500):
+    """quick tier ('q'): the replay alphabet (33 letters); thorough: the full alphabet (110 letters)"""
+    alpha = '"gen"' if tag == "q" else '"full"'
     cfg = write_cfg("MC_rw_%s_%d_%s.cfg" % (mode, pre, tag),
-                    dict(Mode=MODES[mode], Ch=ch, MaxFrames=maxframes, MaxWrites=maxwrites, Depth=0, GEN="FALSE", Pre=pre, Alpha='"full"'), RW_INVS)
+                    dict(Mode=MODES[mode], Ch=ch, MaxFrames=maxframes, MaxWrites=maxwrites, Depth=0, GEN="FALSE", Pre=pre, Alpha=alpha), RW_INVS)
     r = vlib.model_check("MC_rw.tla", cfg, workers=vlib.NPROC, timeout=timeout)
     return r
 
